@@ -211,7 +211,7 @@ def _worker(hname, cfgs, opts, tasks, results, widx, stop_flags=None, path_count
                         st.infeasible += 1
                     elif status == "timeout":
                         st.timeouts += 1
-                        m = E.any_model()
+                        m = E.any_model() if getattr(hmod, "HANG_IS_VIOLATION", False) else None
                         if m is not None:
                             cx._record("hang", "path exceeded %ss wall" % opts["path_wall_s"], m)
                     if E.maybe_infeasible:
@@ -352,7 +352,7 @@ def run_harness(hname, tier="quick", seed=0, only=None):
         c.setdefault("name", "cfg%d" % i)
     opts = {
         "timeout_ms": getattr(hmod, "TIMEOUT_MS", {}).get(tier, 5000),
-        "path_wall_s": getattr(hmod, "PATH_WALL_S", 30),
+        "path_wall_s": getattr(hmod, "PATH_WALL_S", 600),
         "validate_first": getattr(hmod, "VALIDATE_FIRST", 2),
         "validate_every": getattr(hmod, "VALIDATE_EVERY", 97),
         "nproc": NPROC,
